@@ -71,7 +71,18 @@ impl BitmapEvent {
                         rle_32_decompress(&self.data, self.width as u32, self.height as u32, &mut result)?;
                         result
                     } else {
-                        self.data
+                        // uncompressed bitmap are sent bottom-up, like the compressed ones
+                        // and must hold exactly one 32 bits pixel per position
+                        let row_size = self.width as usize * 4;
+                        let expected_size = row_size * self.height as usize;
+                        if self.data.len() < expected_size {
+                            return Err(Error::RdpError(RdpError::new(RdpErrorKind::InvalidSize, "Uncompressed bitmap data too short")))
+                        }
+                        let mut result = Vec::with_capacity(expected_size);
+                        for i in (0..self.height as usize).rev() {
+                            result.extend_from_slice(&self.data[i * row_size..(i + 1) * row_size]);
+                        }
+                        result
                     }
                 )
             },
@@ -82,11 +93,16 @@ impl BitmapEvent {
                     rle_16_decompress(&self.data, self.width as usize, self.height as usize, &mut result)?;
                     result
                 } else {
-                    let mut result = vec![0 as u16; self.width as usize * self.height as usize];
-                    for i in 0..self.height {
-                        for j in 0..self.width {
-                            let src = (((self.height - i - 1) * self.width + j) * 2) as usize;
-                            result[(i * self.width + j) as usize] = (self.data[src + 1] as u16) << 8 | self.data[src] as u16;
+                    let width = self.width as usize;
+                    let height = self.height as usize;
+                    if self.data.len() < width * height * 2 {
+                        return Err(Error::RdpError(RdpError::new(RdpErrorKind::InvalidSize, "Uncompressed bitmap data too short")))
+                    }
+                    let mut result = vec![0 as u16; width * height];
+                    for i in 0..height {
+                        for j in 0..width {
+                            let src = ((height - i - 1) * width + j) * 2;
+                            result[i * width + j] = (self.data[src + 1] as u16) << 8 | self.data[src] as u16;
                         }
                     }
                     result
